@@ -91,7 +91,8 @@ pub enum Act {
 }
 
 const WRITE_VALS: [f64; 2] = [2.5, -1.0];
-const SCALARS: [f64; 4] = [0.0, 1.0, -2.0, 0.5];
+/// 1e-17 is not zero: smaller than the rounding unit, still a value that every entry must receive
+const SCALARS: [f64; 5] = [0.0, 1.0, -2.0, 0.5, 1e-17];
 
 fn act_json(a: &Act) -> Value {
     match a {
@@ -608,7 +609,7 @@ pub fn run(replay: Option<Value>) -> i32 {
     for k in 0..total_by_value {
         rep.fps.insert(k as u128);
     }
-    rep.rule = "explicit-state search: state = (real ivp::Matrix bits, dense reference bits, depth); initial states = every public constructor for every (ml,mu) in [0,n]^2; actions = writes at every (i,j), component_add/sub/mul/mul_mut with {0,1,-2,0.5}, +,-,+=,-=,-=& (both operand orders) with an operand alphabet covering Identity/Full/Banded mixes and bands wider than the matrix; every transition compares all n^2 entries read through Index with the dense reference and is_identity with the dense definition; distinct_nontrivial = distinct (matrix value, reference) pairs reached with depth dropped".into();
+    rep.rule = "explicit-state search: state = (real ivp::Matrix bits, dense reference bits, depth); initial states = every public constructor for every (ml,mu) in [0,n]^2; actions = writes at every (i,j), component_add/sub/mul/mul_mut with {0,1,-2,0.5,1e-17}, +,-,+=,-=,-=& (both operand orders) with an operand alphabet covering Identity/Full/Banded mixes and bands wider than the matrix; every transition compares all n^2 entries read through Index with the dense reference and is_identity with the dense definition; distinct_nontrivial = distinct (matrix value, reference) pairs reached with depth dropped".into();
     rep.dims = Value::Array(lattice);
     rep.samples.push(json!({"initial": "banded(1,0) n=3", "action": act_json(&Act::Bin(0, 1)), "meaning": "Banded + Full -> dense reference add"}));
     rep.samples.push(json!({"initial": "identity n=2", "action": act_json(&Act::Write(0, 1, 0)), "meaning": "write into Identity must panic and leave the value intact"}));
